@@ -62,6 +62,8 @@ class Exec:
         self.item_overrides: Dict[Tuple[str, str, Any], Term] = {}  # (module, module-level dict, constant key) -> registered implementation
         self.registry: Dict[str, Term] = {}  # "AES128" -> class registered through register_AES128, ...
         self.global_store: Dict[Tuple[str, str], Term] = {}
+        self.dead_envs: Dict[int, Dict[str, Term]] = {}  # variables of finished activations that created closures (frame uid -> env)
+        self.nt_fields: Dict[int, set] = {}  # tuple term uid -> field name tuples of the named-tuple classes it was built by
         self.registered = registered
         self.notes: List[str] = []
         self.type_hints: Dict[int, Any] = {}
@@ -258,15 +260,18 @@ class Exec:
             return self.prog.resolve_expr_static(m, ann)
         return None
 
-    def _run_body(self, fi: FuncInfo, bind: Dict[str, Term], st: State, closure_frame, node, self_term):
+    def _run_body(self, fi: FuncInfo, bind: Dict[str, Term], st: State, closure_frame, node, self_term, captured=None):
         fr = FrameInfo(fi, closure_frame, self_term)
+        fr.captured = captured
         self.fis[id(fi.node)] = fi
         self.frames.append(fr)
         st.envs.append(dict(bind))
         try:
             if isinstance(fi.node, ast.Lambda):
                 v = self.ev(fi.node.body, st)
-                st.envs.pop()
+                env_ = st.envs.pop()
+                if fr.made_closure:
+                    self.dead_envs[fr.uid] = env_
                 return v, st
             trace0 = len(self.trace)
             if fi.is_generator:
@@ -285,7 +290,9 @@ class Exec:
             if not finals:
                 raise PathDead()
             val, merged = self._merge_returns(finals)
-            merged.envs.pop()
+            env_ = merged.envs.pop()
+            if fr.made_closure:
+                self.dead_envs[fr.uid] = env_
             if fi.is_generator:
                 val = mk("ref", fr.yields, "gen:" + fi.name)
                 go = merged.heap.get(fr.yields)
@@ -302,6 +309,23 @@ class Exec:
             self.frames.pop()
 
     def _merge_returns(self, finals):
+        # two return paths whose facts are a common prefix followed by (c, True) / (c, False) were separated by the test c: their values merge under c
+        # (`if a: return x` / `elif b: return y` / `return z` gives phi(a, x, phi(b, y, z)) like the corresponding conditional expression)
+        finals = list(finals)
+        progress = True
+        while progress and len(finals) > 1:
+            progress = False
+            for i in range(len(finals) - 1):
+                (v1, s1), (v2, s2) = finals[i], finals[i + 1]
+                f1, f2 = s1.facts, s2.facts
+                if len(f1) == len(f2) and len(f1) >= 1 and f1[:-1] == f2[:-1] and f1[-1][0] is f2[-1][0] and bool(f1[-1][1]) != bool(f2[-1][1]):
+                    c = f1[-1][0]
+                    a, b = ((v1, s1), (v2, s2)) if f1[-1][1] else ((v2, s2), (v1, s1))
+                    m = self.merge(c, a[1], b[1])
+                    m.facts = tuple(f1[:-1])
+                    finals[i:i + 2] = [(a[0] if a[0] is b[0] else mk("phi", c, a[0], b[0]), m)]
+                    progress = True
+                    break
         val, s = finals[0]
         for v2, s2 in finals[1:]:
             sel = sym("path")
